@@ -2,8 +2,10 @@
   C06, round 3: the NETLIST-LEVEL round trip, composed from the line-level theorem: a multi-line netlist
   of components in normal form is printed one component per line, split at the newlines, and read
   back line by line to the same netlist; printing is idempotent.
-  Not covered here: directive / comment / blank lines and anonymous components (their names are
-  generated from the names already in use; correspondence and oracle only).
+  PARTIAL (hence the `_partial` names): not covered are directive / comment / blank lines and anonymous
+  components (their names are generated from the names already in use), namespaced names (`a.R1`), option
+  values containing `{ } ,` and the `def` key, and the values excluded by `normalCpt` (findings C06-e/a/b);
+  these are validated by correspondence and oracle only.
 -/
 import Lcapy.Props.C06Line
 namespace Lcapy.C06
